@@ -156,7 +156,7 @@ def main():
                 "replay_cmd_template": f"./check {pid} --replay {{path}}",
                 "engine": "vq",
                 "level_claimed": {"category": cat, "text": text, "design_ref": "DESIGN.md section " + ref},
-                "level_note": note + " Workload classes follow the standing rules 1-19 of DESIGN.md section 7 (scales, exact and NEAR coincidences, "
+                "level_note": note + " Workload classes follow the standing rules 1-20 of DESIGN.md section 7 (scales, exact and NEAR coincidences, "
                               "shapes and size ladder, layouts, histories on the caller's own objects, call forms, storage forms, structured inputs, "
                               "small-but-legitimate data, worst-case constructions, concurrent callers, numpy error state); evidence/<id>.json lists the classes and clause "
                               "counts actually observed.",
